@@ -255,17 +255,43 @@ fn c20_serde_malformed(ctx: &mut Ctx) {
     x.key(ctx);
     ctx.key_u64(which);
     note_dd(ctx, "x", x);
-    let (h, l) = (x.hi, x.lo);
+    let (mut h, mut l) = (x.hi, x.lo);
+    // the extra / duplicated entries may carry any f64 class (NaN and inf included): a visitor that
+    // uses a special value as its "not seen yet" marker must still reject the shape
+    let (h2, l2) = (f64_any(ctx), f64_any(ctx));
+    if ctx.chance(1, 3) {
+        h = f64_any(ctx);
+    }
+    if ctx.chance(1, 3) {
+        l = f64_any(ctx);
+    }
+    ctx.key_f64(h);
+    ctx.key_f64(l);
+    ctx.key_f64(h2);
+    ctx.key_f64(l2);
+    ctx.note("words", || format!("hi {} lo {} extra {} {}", showf(h), showf(l), showf(h2), showf(l2)));
     let (name, r): (&str, Result<TwoFloat, String>) = match which {
         0 => ("map without lo", de_map(vec![("hi", h)]).map_err(|e| e.to_string())),
         1 => ("map without hi", de_map(vec![("lo", l)]).map_err(|e| e.to_string())),
-        2 => ("duplicate hi", de_map(vec![("hi", h), ("hi", h), ("lo", l)]).map_err(|e| e.to_string())),
-        3 => ("duplicate lo", de_map(vec![("hi", h), ("lo", l), ("lo", l)]).map_err(|e| e.to_string())),
+        2 => {
+            if ctx.flag() {
+                ("duplicate hi", de_map(vec![("hi", h), ("hi", h2), ("lo", l)]).map_err(|e| e.to_string()))
+            } else {
+                ("duplicate hi (after lo)", de_map(vec![("hi", h), ("lo", l), ("hi", h2)]).map_err(|e| e.to_string()))
+            }
+        }
+        3 => {
+            if ctx.flag() {
+                ("duplicate lo", de_map(vec![("hi", h), ("lo", l), ("lo", l2)]).map_err(|e| e.to_string()))
+            } else {
+                ("duplicate lo (before hi)", de_map(vec![("lo", l), ("lo", l2), ("hi", h)]).map_err(|e| e.to_string()))
+            }
+        }
         4 => ("unknown field", de_map(vec![("hi", h), ("lo", l), ("mid", 0.0)]).map_err(|e| e.to_string())),
         5 => ("one-element sequence", de_seq_n(vec![h]).map_err(|e| e.to_string())),
         6 => ("empty sequence", de_seq_n(vec![]).map_err(|e| e.to_string())),
-        7 => ("JSON duplicate field", serde_json::from_str::<TwoFloat>(&format!("{{\"hi\":{:e},\"lo\":{:e},\"lo\":{:e}}}", h, l, l)).map_err(|e| e.to_string())),
-        _ => ("JSON unknown field", serde_json::from_str::<TwoFloat>(&format!("{{\"hi\":{:e},\"lo\":{:e},\"x\":1}}", h, l)).map_err(|e| e.to_string())),
+        7 => ("JSON duplicate field", serde_json::from_str::<TwoFloat>(&format!("{{\"hi\":{:e},\"lo\":{:e},\"lo\":{:e}}}", x.hi, x.lo, x.lo)).map_err(|e| e.to_string())),
+        _ => ("JSON unknown field", serde_json::from_str::<TwoFloat>(&format!("{{\"hi\":{:e},\"lo\":{:e},\"x\":1}}", x.hi, x.lo)).map_err(|e| e.to_string())),
     };
     ctx.note("shape", || name.to_string());
     check!(ctx, r.is_err(), "malformed input ({name}) for {} was accepted as {:?}", x.show(), r.as_ref().ok().map(|t| Dd::of(*t).show()));
